@@ -17,14 +17,16 @@ import (
 
 type refKey struct {
 	T time.Duration
+	X time.Duration // maximum block time (0: extension off)
 	N int
 }
 
 type refVal struct {
-	ok    bool
-	prim0 time.Duration    // Reset to a height where the node is the view-0 primary
-	back0 time.Duration    // Start at a height where the node is a backup
-	backV [9]time.Duration // timer armed on entering view v as a backup (0: no reference)
+	ok     bool
+	prim0  time.Duration    // Reset to a height where the node is the view-0 primary
+	back0  time.Duration    // Start at a height where the node is a backup
+	back0R time.Duration    // Reset to a height where the node is a backup
+	backV  [9]time.Duration // timer armed on entering view v as a backup (0: no reference)
 }
 
 var refCache = map[refKey]*refVal{}
@@ -47,8 +49,8 @@ func (t *refTimer) Reset(h uint32, v byte, d time.Duration) {
 	t.n++
 }
 
-func refTimers(T time.Duration, N int) *refVal {
-	k := refKey{T, N}
+func refTimers(T, X time.Duration, N int) *refVal {
+	k := refKey{T, X, N}
 	if r, ok := refCache[k]; ok {
 		return r
 	}
@@ -63,12 +65,12 @@ func refTimers(T time.Duration, N int) *refVal {
 				r.ok = false
 			}
 		}()
-		calibrate(r, T, N)
+		calibrate(r, T, X, N)
 	}()
 	return r
 }
 
-func calibrate(r *refVal, T time.Duration, N int) {
+func calibrate(r *refVal, T, X time.Duration, N int) {
 	saved := dbft.VerifMapPerm
 	dbft.VerifMapPerm = nil
 	defer func() { dbft.VerifMapPerm = saved }()
@@ -80,7 +82,7 @@ func calibrate(r *refVal, T time.Duration, N int) {
 	// process-wide seeded crypto/rand stream that the run under judgement also uses.
 	// Height 6: the view-v primary is validator (6-v) mod N, so validator 7 mod N is a backup in
 	// views 0..N-2 and the view-0 primary of height 7.
-	d, tm, tip := refInstance(T, N, me)
+	d, tm, tip := refInstance(T, X, N, me)
 	if d == nil {
 		return
 	}
@@ -99,10 +101,18 @@ func calibrate(r *refVal, T time.Duration, N int) {
 		return
 	}
 	r.prim0 = tm.last
+	// one more block: height 8, a backup again
+	*tip = base + 2
+	tm.n = 0
+	d.Reset(ts)
+	if d.BlockIndex != base+3 || d.IsPrimary() || tm.n == 0 {
+		return
+	}
+	r.back0R = tm.last
 	r.ok = true
 	// the ladder, on another fresh instance: time out, hear everybody else ask for the next
 	// view, enter it as a backup
-	d, tm, tip = refInstance(T, N, me)
+	d, tm, tip = refInstance(T, X, N, me)
 	if d == nil {
 		return
 	}
@@ -127,7 +137,7 @@ func calibrate(r *refVal, T time.Duration, N int) {
 	}
 }
 
-func refInstance(T time.Duration, N, me int) (*dbft.DBFT[Hash], *refTimer, *uint32) {
+func refInstance(T, X time.Duration, N, me int) (*dbft.DBFT[Hash], *refTimer, *uint32) {
 	kr := NewKeyring(0x5eed, N)
 	pubs := make([]dbft.PublicKey, N)
 	for i := range pubs {
@@ -141,7 +151,7 @@ func refInstance(T time.Duration, N, me int) (*dbft.DBFT[Hash], *refTimer, *uint
 		w.u32(*tip)
 		return w.sum()
 	}
-	d, err := dbft.New[Hash](
+	opts := []func(*dbft.Config[Hash]){
 		dbft.WithLogger[Hash](zap.NewNop()),
 		dbft.WithTimer[Hash](tm),
 		dbft.WithTimePerBlock[Hash](func() time.Duration { return T }),
@@ -176,7 +186,11 @@ func refInstance(T time.Duration, N, me int) (*dbft.DBFT[Hash], *refTimer, *uint
 		dbft.WithNewCommit[Hash](func(sig []byte) dbft.Commit { return &CommitBody{Sig: append([]byte(nil), sig...)} }),
 		dbft.WithNewRecoveryRequest[Hash](func(ts uint64) dbft.RecoveryRequest { return &RecReq{TS: ts} }),
 		dbft.WithNewRecoveryMessage[Hash](func() dbft.RecoveryMessage[Hash] { return &RecMsg{} }),
-	)
+	}
+	if X > 0 {
+		opts = append(opts, dbft.WithMaxTimePerBlock[Hash](func() time.Duration { return X }), dbft.WithSubscribeForTxs[Hash](func() {}))
+	}
+	d, err := dbft.New[Hash](opts...)
 	if err != nil {
 		return nil, nil, nil
 	}
